@@ -907,11 +907,39 @@ func selftest(ids []string) int {
 				}
 			}
 		}
+		// warm against cold: runs that a worker executed after many others, executed once more alone
+		// in a fresh process (same case, same scheduler specification), must come out the same -
+		// otherwise a failure found during exploration does not replay
+		cold := 0
+		for k, v := range ref {
+			ki, _ := strconv.Atoi(k)
+			if ki < nw*(runs-6) || ki%nw > 1 {
+				continue // the last runs of two workers
+			}
+			spec := filepath.Join(td, fmt.Sprintf("p1a-w%d.dump.spec%s", ki%nw, k))
+			j := job{Mode: "replay", Property: prop, Tier: "quick", VerifSeed: 1, File: spec, Out: filepath.Join(td, fmt.Sprintf("cold-%s.jsonl", k))}
+			r := runWorker(j, 1, 10*time.Minute)
+			got := ""
+			for i, m := range r.lines {
+				if typ(m) == "replay" {
+					var rec struct {
+						Hashes string `json:"hashes"`
+					}
+					json.Unmarshal([]byte(r.raw[i]), &rec)
+					got = rec.Hashes
+				}
+			}
+			cold++
+			if got != v {
+				fmt.Printf("selftest %s: run %s executed alone in a fresh process differs from the same run executed by a worker after %d others: %q vs %q\n", prop, k, ki/nw, got, v)
+				bad++
+			}
+		}
 		if bad > 0 || len(ref) == 0 {
 			fmt.Printf("selftest %s: FAILED (%d differences over %d runs)\n", prop, bad, len(ref))
 			rc = 2
 		} else {
-			fmt.Printf("selftest %s: %d runs x 4 configurations (GOMAXPROCS 1,1,4,16; %d processes) identical\n", prop, len(ref), len(cfgs)*nw)
+			fmt.Printf("selftest %s: %d runs x 4 configurations (GOMAXPROCS 1,1,4,16; %d processes) identical; %d late runs identical when executed alone in a fresh process\n", prop, len(ref), len(cfgs)*nw, cold)
 		}
 	}
 	return rc
